@@ -69,6 +69,14 @@ theorem apply_changes (S : Assoc Bytes (List Entry)) (d : Nat) (a b : List Entry
   intro p x y hx hy hdx hdy
   rw [nodeIn_dir_mode p ha hx hdx, nodeIn_dir_mode p hb hy hdy]
 
+/-- A re-used `State` does not matter: `state.clear()` restores the initial state, so the result of
+a diff is independent of whatever an earlier — possibly cancelled or failed — diff left in the
+work queue and in `change_id`. (All theorems above therefore hold for diffs on re-used states.) -/
+theorem diff_state_independent (S : Assoc Bytes (List Entry)) (depth : Nat) (st : DState)
+    (a b : List Entry) : diffWith S depth st a b = diff S depth a b := rfl
+
+example : (DState.mk [⟨[[100]], some [1], some [2], .none⟩] 7).clear = ⟨[], 0⟩ := rfl
+
 /-- A tree does not differ from itself. -/
 theorem diff_self_empty (S : Assoc Bytes (List Entry)) (d : Nat) (a : List Entry)
     (ha : CanonN S (d + 1) a) (depth : Nat) (hd : d ≤ depth) : ∃ out, diff S depth a a = .ok out ∧ out = [] := by
